@@ -17,6 +17,7 @@ import (
 	"github.com/tdewolff/parse/v2"
 	"github.com/tdewolff/parse/v2/buffer"
 
+	"verif/harness/internal/reg"
 	"verif/harness/internal/tr"
 )
 
@@ -73,6 +74,7 @@ type inst struct {
 	ctor   string
 	z      api
 	data   []byte // pristine copy of what the cursor ranges over
+	given  []byte // what was handed to the constructor (a failing reader delivers it before the error)
 	back   []byte // caller's backing array at full capacity (nil if the caller handed over no memory)
 	orig   []byte // pristine copy of back
 	spare  bool
@@ -80,7 +82,7 @@ type inst struct {
 }
 
 func build(kind, ctor string, data []byte) *inst {
-	in := &inst{kind: kind, ctor: ctor, data: append([]byte{}, data...)}
+	in := &inst{kind: kind, ctor: ctor, data: append([]byte{}, data...), given: append([]byte{}, data...)}
 	var r io.Reader
 	var b []byte
 	switch ctor {
@@ -278,7 +280,7 @@ func (in *inst) do(w *tr.Writer, c call) (ev tr.E) {
 }
 
 func (in *inst) newEvent(w *tr.Writer) {
-	w.Ev("New", tr.E{"kind": in.kind, "ctor": in.ctor, "data": tr.Ints(in.data), "failed": in.failed, "spare": in.spare})
+	w.Ev("New", tr.E{"kind": in.kind, "ctor": in.ctor, "data": tr.Ints(in.data), "failed": in.failed, "spare": in.spare, "given": tr.Ints(in.given)})
 }
 
 type tcase struct {
@@ -533,8 +535,8 @@ func Rerun(args []string) {
 	}
 	n0 := evs[0]
 	var data []byte
-	if n0["failed"] != true {
-		for _, v := range n0["data"].([]interface{}) {
+	if g, ok := n0["given"].([]interface{}); ok {
+		for _, v := range g {
 			data = append(data, byte(v.(float64)))
 		}
 	}
@@ -551,4 +553,10 @@ func Rerun(args []string) {
 	w.End(true)
 	w.Close()
 	json.NewEncoder(os.Stdout).Encode(summary{Suite: "cursor", Mode: "rerun", Executions: 1, Traces: 1, Events: w.Events})
+}
+
+func init() {
+	reg.Register("cursor", "replay", Replay)
+	reg.Register("cursor", "record", Record)
+	reg.Register("cursor", "rerun", Rerun)
 }
